@@ -1470,13 +1470,17 @@ func TestVerifC09(t *testing.T) {
 		out.Count("pull_cases")
 	}
 	pushRoot := root.Fork()
+	pushCfg := c09ProbePushConfig(t)
+	if pushCfg {
+		out.Count("push_offers_config_blob_present")
+	}
 	for i := 0; i < npush; i++ {
 		rng := pushRoot.Fork()
 		if replay && !(rkind == "push" && ridx == i) {
 			continue
 		}
 		dir := filepath.Join(base, fmt.Sprintf("u%d", i))
-		c09PushCase(t, out, rng, dir, fmt.Sprintf("seed=%d kind=push idx=%d", seed, i), i)
+		c09PushCase(t, out, rng, dir, fmt.Sprintf("seed=%d kind=push idx=%d", seed, i), i, pushCfg)
 		os.RemoveAll(dir)
 		out.Count("cases")
 		out.Count("push_cases")
@@ -1665,7 +1669,71 @@ func c09ShowResps(rs []c09Resp1) string {
 
 // c09PushCase: idx < 3*len(c09Statuses)*2 enumerates (exchange, status, Location?) as the FIRST
 // answer of that exchange of a one-layer push; the rest is random.
-func c09PushCase(t *testing.T, out *zzverif.Out, rng *zzverif.Rng, dir, tag string, idx int) {
+// c09ProbePushConfig pushes a one-layer manifest WITH a config blob through the real Registry.Push and
+// reports whether the config digest is ever offered to the registry (finding F30 repaired) or not.
+type c09ProbeCfgRT struct {
+	mu   sync.Mutex
+	seen []string
+}
+
+func (r *c09ProbeCfgRT) RoundTrip(req *http.Request) (*http.Response, error) {
+	if req.Body != nil {
+		io.Copy(io.Discard, req.Body)
+		req.Body.Close()
+	}
+	r.mu.Lock()
+	r.seen = append(r.seen, req.URL.String())
+	r.mu.Unlock()
+	return c09Resp(req, 200, c09Str(""), nil), nil // "the registry has this blob" / manifest accepted
+}
+
+// c09ManifestJSON is a manifest as a registry serves it (and as Pull stores it verbatim): the
+// package's own MarshalJSON always writes an EMPTY config object, so the JSON is built by hand.
+func c09ManifestJSON(layers []*Layer, cfg *Layer) []byte {
+	type jl struct {
+		Digest    string `json:"digest"`
+		MediaType string `json:"mediaType"`
+		Size      int64  `json:"size"`
+	}
+	v := map[string]any{}
+	var ls []jl
+	for _, l := range layers {
+		ls = append(ls, jl{l.Digest.String(), "application/vnd.ollama.image.model", l.Size})
+	}
+	v["layers"] = ls
+	if cfg != nil {
+		v["config"] = jl{cfg.Digest.String(), "application/vnd.docker.container.image.v1+json", cfg.Size}
+	}
+	b, _ := json.Marshal(v)
+	return b
+}
+
+func c09ProbePushConfig(t *testing.T) bool {
+	c, err := blob.Open(t.TempDir())
+	if err != nil {
+		t.Fatal(err)
+	}
+	ld, cd := c09Dig([]byte("probe-layer")), c09Dig([]byte("probe-config"))
+	blob.PutBytes(c, ld, "probe-layer")
+	blob.PutBytes(c, cd, "probe-config")
+	data := c09ManifestJSON([]*Layer{{Digest: ld, Size: 11}}, &Layer{Digest: cd, Size: 12})
+	md := c09Dig(data)
+	blob.PutBytes(c, md, string(data))
+	if err := c.Link("example.com/library/probe:latest", md); err != nil {
+		t.Fatal(err)
+	}
+	rt := &c09ProbeCfgRT{}
+	rc := &Registry{Cache: c, HTTPClient: &http.Client{Transport: rt}}
+	rc.Push(context.Background(), "http://example.com/library/probe", nil)
+	for _, u := range rt.seen {
+		if strings.Contains(u, cd.String()) {
+			return true
+		}
+	}
+	return false
+}
+
+func c09PushCase(t *testing.T, out *zzverif.Out, rng *zzverif.Rng, dir, tag string, idx int, cfgToo bool) {
 	c, err := blob.Open(dir)
 	if err != nil {
 		t.Fatal(err)
@@ -1680,7 +1748,15 @@ func c09PushCase(t *testing.T, out *zzverif.Out, rng *zzverif.Rng, dir, tag stri
 	upload := c09Resp1{202, true}
 	has := c09Resp1{200, false}
 	faulty := rng.Chance(1, 2)
-	for i := 0; i < n; i++ {
+	// a manifest with a config blob (as every model pulled from a registry has): its scripts are at index n
+	hasCfg := !exhaustive && rng.Chance(1, 3)
+	nb := n
+	if hasCfg {
+		nb = n + 1
+		out.Count("push_manifest_with_config_blob")
+	}
+	var cfgLayer *Layer
+	for i := 0; i < nb; i++ {
 		data := append([]byte(fmt.Sprintf("layer-%d-", i)), rng.Bytes(rng.Range(1, 40))...)
 		d := c09Dig(data)
 		if err := blob.PutBytes(c, d, data); err != nil {
@@ -1695,7 +1771,11 @@ func c09PushCase(t *testing.T, out *zzverif.Out, rng *zzverif.Rng, dir, tag stri
 		reg.post = append(reg.post, post)
 		reg.put = append(reg.put, put)
 		reg.index[d] = i
-		layers = append(layers, &Layer{Digest: d, Size: int64(len(data))})
+		if i == n {
+			cfgLayer = &Layer{Digest: d, Size: int64(len(data))}
+		} else {
+			layers = append(layers, &Layer{Digest: d, Size: int64(len(data))})
+		}
 	}
 	if rng.Chance(1, 4) {
 		reg.man = c09GenExchange(rng, []c09Resp1{{200, false}, {201, false}, {500, false}, {304, false}, {307, false}, {0, false}})
@@ -1714,8 +1794,8 @@ func c09PushCase(t *testing.T, out *zzverif.Out, rng *zzverif.Rng, dir, tag stri
 		}
 		out.Count("push_exhaustive_first_answer")
 	}
-	reg.pi, reg.ui = make([]int, n), make([]int, n)
-	reg.gpost, reg.gput = make([][]c09Resp1, n), make([][]c09Resp1, n)
+	reg.pi, reg.ui = make([]int, nb), make([]int, nb)
+	reg.gpost, reg.gput = make([][]c09Resp1, nb), make([][]c09Resp1, nb)
 	reg.cancelAt = -1
 	if !exhaustive && rng.Chance(1, 8) {
 		// the caller's context ends when the k-th physical request arrives: that request and every later
@@ -1724,6 +1804,9 @@ func c09PushCase(t *testing.T, out *zzverif.Out, rng *zzverif.Rng, dir, tag stri
 		out.Count("push_context_cancelled_at_some_request")
 	}
 	mdata, _ := json.Marshal(&Manifest{Layers: layers})
+	if hasCfg {
+		mdata = c09ManifestJSON(layers, cfgLayer)
+	}
 	md := c09Dig(mdata)
 	if err := blob.PutBytes(c, md, mdata); err != nil {
 		t.Fatal(err)
@@ -1749,8 +1832,12 @@ func c09PushCase(t *testing.T, out *zzverif.Out, rng *zzverif.Rng, dir, tag stri
 		out.L2("driver-unexpected-request", tag, u)
 	}
 	var sb strings.Builder
-	fmt.Fprintf(&sb, "push %d", n)
-	for i := 0; i < n; i++ {
+	if hasCfg {
+		fmt.Fprintf(&sb, "pushm %d 1 %d", c09B2i(cfgToo), nb)
+	} else {
+		fmt.Fprintf(&sb, "push %d", n)
+	}
+	for i := 0; i < nb; i++ {
 		fmt.Fprintf(&sb, " %s %s", c09ShowResps(reg.gpost[i]), c09ShowResps(reg.gput[i]))
 	}
 	fmt.Fprintf(&sb, " %d", len(reg.sched))
@@ -1773,7 +1860,18 @@ func c09PushCase(t *testing.T, out *zzverif.Out, rng *zzverif.Rng, dir, tag stri
 	}
 	out.Case(op, fmt.Sprintf("%s res=%s", strings.Join(evs, " "), res))
 	c09Tag(tag)
-	c09PushL2(out, tag+" :: "+op, reg.events, n, err == nil)
+	cfgIdx := -1
+	if hasCfg {
+		cfgIdx = n
+	}
+	c09PushL2(out, tag+" :: "+op, reg.events, n, cfgIdx, err == nil)
+}
+
+func c09B2i(b bool) int {
+	if b {
+		return 1
+	}
+	return 0
 }
 
 // c09PushL2, on the registry's request log alone: requests of the manifest exchange come after every
@@ -1781,7 +1879,11 @@ func c09PushCase(t *testing.T, out *zzverif.Out, rng *zzverif.Rng, dir, tag stri
 // last request of its POST exchange if that answer carried no upload URL (the registry has the
 // blob), else the last request of its upload exchange, which must exist; Push returns nil only if
 // the manifest exchange was sent and its last request answered 2xx.
-func c09PushL2(out *zzverif.Out, caseLine string, evs []c09PushEvent, n int, success bool) {
+//
+// A config blob named by the manifest (cfgIdx >= 0) is a blob like any layer: a manifest request with no
+// request at all for the config before it is `push-manifest-without-config-blob`; once the client offers
+// it, the same three conditions as for a layer apply.
+func c09PushL2(out *zzverif.Out, caseLine string, evs []c09PushEvent, n int, cfgIdx int, success bool) {
 	var ss []string
 	for _, e := range evs {
 		ss = append(ss, e.String())
@@ -1795,6 +1897,19 @@ func c09PushL2(out *zzverif.Out, caseLine string, evs []c09PushEvent, n int, suc
 		if e.layer >= 0 && first >= 0 {
 			out.L2("push-manifest-not-last", caseLine, ls)
 			break
+		}
+	}
+	if first >= 0 && cfgIdx >= 0 {
+		offered := false
+		for _, e := range evs[:first] {
+			if e.layer == cfgIdx {
+				offered = true
+			}
+		}
+		if !offered {
+			out.L2("push-manifest-without-config-blob", caseLine, "config-never-offered: the manifest names a config blob, no request for it reached the registry before the manifest PUT; "+ls)
+		} else {
+			n = cfgIdx + 1 // treated as one more layer below
 		}
 	}
 	if first >= 0 {
